@@ -1,12 +1,18 @@
-"""C16: decided on operation histories (see DESIGN.md section 7 for what is compared and proved)."""
+"""C16: bulk operations do not depend on batch size or lookup strategy; merge helpers."""
+from .. import merge
 from ._store import replay_store, run_store
 
-QUICK = [('bulk', 110)]
+QUICK = [('bulk', 100)]
 THOROUGH = [('bulk', 1400)]
 
 
 def run(tier: str):
-    return run_store('C16', tier, QUICK, THOROUGH)
+    rep = run_store('C16', tier, QUICK, THOROUGH)
+    merge.run_helpers(tier, rep)
+    rep.distinct_nontrivial += rep.stats.get('helper_error_cases', 0)
+    rep.rule += ('; plus every pair of lists (sorted and unsorted) over a small universe for detect_where_sorted/merge_sorted and random '
+                 'longer inputs, compared with the Lean model and with set algebra')
+    return rep
 
 
 def replay(path: str) -> int:
